@@ -196,12 +196,18 @@ func innermostFrame() string {
 	return first
 }
 
+// FreeRunning is set (before any goroutine starts) by the free-running race pass: the harness then never
+// touches the controlled environment, which is a single-goroutine global.
+var FreeRunning bool
+
 // LoadSwagger decodes a document into the spec model.
 func LoadSwagger(doc string) (*spec.Swagger, error) {
 	// loading is not the code under test: it does not count against the step horizon
-	saved := mcrt.Cur.Horizon
-	mcrt.Cur.Horizon = 0
-	defer func() { mcrt.Cur.Horizon = saved }()
+	if !FreeRunning {
+		saved := mcrt.Cur.Horizon
+		mcrt.Cur.Horizon = 0
+		defer func() { mcrt.Cur.Horizon = saved }()
+	}
 	sw := new(spec.Swagger)
 	if err := json.Unmarshal([]byte(doc), sw); err != nil {
 		return nil, err
@@ -211,9 +217,11 @@ func LoadSwagger(doc string) (*spec.Swagger, error) {
 
 // Marshal serializes the spec model (canonical: encoding/json sorts map keys).
 func Marshal(v any) []byte {
-	saved := mcrt.Cur.Horizon
-	mcrt.Cur.Horizon = 0
-	defer func() { mcrt.Cur.Horizon = saved }()
+	if !FreeRunning {
+		saved := mcrt.Cur.Horizon
+		mcrt.Cur.Horizon = 0
+		defer func() { mcrt.Cur.Horizon = saved }()
+	}
 	b, err := json.Marshal(v)
 	if err != nil {
 		return []byte("MARSHAL-ERROR: " + err.Error())
